@@ -518,6 +518,7 @@ class Interp:
             raise Undecided("recursion too deep")
         node = clo.node
         env: dict = {"__parent__": clo.env, "__mod__": clo.mod} if clo.env is not None else {"__mod__": clo.mod}
+        env["__func__"] = node
         a = node.args
         params = [p.arg for p in getattr(a, "posonlyargs", [])] + [p.arg for p in a.args]
         defaults = [None] * (len(params) - len(a.defaults)) + list(a.defaults)
@@ -1282,8 +1283,41 @@ class Interp:
                 kwargs[k.arg] = self.eval(k.value, env)
         # zero-arg super()
         if isinstance(f, Builtin) and f.name == "super":
-            raise Undecided("super() not interpreted")
+            return self._super(env)
         return self.call(f, args, kwargs, n)
+
+    def _super(self, env):
+        e = env
+        fnode = None
+        while e is not None:
+            if "__func__" in e and getattr(e["__func__"], "_class", None) is not None:
+                fnode = e["__func__"]
+                break
+            e = e.get("__parent__")
+        if fnode is None:
+            raise Undecided("super() outside a method")
+        cls_node = fnode._class
+        selfname = fnode.args.args[0].arg
+        selfv = self.lookup(selfname, e)
+        start = selfv.cls if isinstance(selfv, Rec) else selfv if isinstance(selfv, ClassRef) else None
+        if start is None:
+            raise Undecided("super() receiver")
+        mro = self.class_mro(start)
+        idx = next((i for i, (m, cd) in enumerate(mro) if cd is cls_node), None)
+        if idx is None:
+            raise Undecided("super(): defining class not in the MRO of the receiver")
+        rest = mro[idx + 1:]
+        interp = self
+
+        class SuperProxy(Ext):
+            def sym_getattr(self_, it, attr):
+                for m, cd in rest:
+                    for st in cd.body:
+                        if isinstance(st, ast.FunctionDef) and st.name == attr:
+                            return Bound(selfv, Closure(m, st, None, f"{cd.name}.{attr}"))
+                raise Undecided(f"super().{attr} not found")
+
+        return SuperProxy()
 
     # ------------------------------------------------------------------ builtins
     def iterate(self, v):
@@ -1515,6 +1549,8 @@ class Interp:
             raise Undecided("isinstance undecided")
         if isinstance(v, Unknown):
             return Unknown("isinstance of unknown")
+        if isinstance(v, Ext) and hasattr(v, "sym_isinstance"):
+            return v.sym_isinstance(self, t)
         if isinstance(t, ClassRef):
             if isinstance(v, Rec):
                 return any((m.name, cd.name) == (t.module, t.name) for m, cd in self.class_mro(v.cls))
